@@ -20,7 +20,15 @@ pub fn run<S: Strategy>(seed: u64, stream: u64, cases: u32, strat: &S, test: imp
 where
     S::Value: Clone + std::fmt::Debug,
 {
-    let config = Config { cases, failure_persistence: None, max_shrink_iters: 20_000, max_global_rejects: 0, ..Config::default() };
+    run_with(seed, stream, cases, 20_000, strat, test)
+}
+
+/// like `run` with an explicit bound on shrink attempts (expensive cases)
+pub fn run_with<S: Strategy>(seed: u64, stream: u64, cases: u32, max_shrink_iters: u32, strat: &S, test: impl Fn(&S::Value, bool) -> bool) -> Option<S::Value>
+where
+    S::Value: Clone + std::fmt::Debug,
+{
+    let config = Config { cases, failure_persistence: None, max_shrink_iters, max_global_rejects: 0, ..Config::default() };
     let rng = TestRng::from_seed(RngAlgorithm::ChaCha, &seed_bytes(seed, stream));
     let mut runner = TestRunner::new_with_rng(config, rng);
     let failed = Cell::new(false);
